@@ -54,13 +54,23 @@ def ttm (T : Dense α) (U : Mat α) (n : Nat) (tr : Bool) : Except Reject (Dense
     .ok (ttmT T U n tr)
   else .error .reject
 
-/-- `tensor.ttm(list, dims, transpose=tr)` after `tt_dimscheck` produced `dims` (with as many
-matrices as modes): `matrix[dims[0]]` in mode `dims[0]` first (an empty `dims` is an
+/-- Which matrix multiplies which mode in `tensor.ttm(list, dims)` (`tt_dimscheck`): when there are
+as many matrices as listed modes they are taken by POSITION (`vidx = arange(P)`), otherwise (one
+matrix per tensor mode) by MODE (`vidx = dims`). -/
+def ttmPairs (Us : List (Mat α)) (dims : List Nat) : List (Nat × Mat α) :=
+  if dims.length == Us.length then
+    (dims.zip (List.range dims.length)).map fun p => (p.1, Us.getD p.2 [])
+  else dims.map fun k => (k, Us.getD k [])
+
+/-- `tensor.ttm(list, dims, transpose=tr)` with the modes `dims` produced by `tt_dimscheck`: more
+matrices than modes, or a count that is neither the number of modes nor the number of listed
+modes, is rejected; `matrix[vidx[0]]` multiplies mode `dims[0]` first (an empty `dims` is an
 `IndexError`), then the others in turn. -/
 def ttmDims (T : Dense α) (Us : List (Mat α)) (dims : List Nat) (tr : Bool) : Except Reject (Dense α) :=
-  if Us.length != T.shape.length then .error .reject
+  if Us.length > T.shape.length then .error .reject
+  else if Us.length != T.shape.length && Us.length != dims.length then .error .reject
   else if dims.isEmpty then .error .reject
-  else dims.foldlM (fun Y k => ttm Y (Us.getD k []) k tr) T
+  else (ttmPairs Us dims).foldlM (fun Y p => ttm Y p.2 p.1 tr) T
 
 /-- `tensor.ttm(list, transpose=tr)`: every mode, increasing. -/
 def ttmAll (T : Dense α) (Us : List (Mat α)) (tr : Bool) : Except Reject (Dense α) :=
